@@ -31,6 +31,19 @@ Theorem C17_cache_guarded : forallb access_ok lock_facts = true.
 Proof. exact cache_guarded. Qed.
 Print Assumptions C17_cache_guarded.
 
+(* No lost updates: every function of package security that writes a SessionCache
+   field acquires the cache lock exactly once, so its read-decide-write (scan for
+   expired entries then delete; look up then delete) is one critical section and no
+   Store / RenewLease+Store can land between the decision and the deletion. *)
+Theorem C17_cache_atomic_sections :
+  forallb cs_ok cs_facts = true /\
+  atomic_writer "security.SessionCache.InvalidateExpired" = true /\
+  atomic_writer "security.SessionCache.LookupNonExpired" = true /\
+  atomic_writer "security.SessionCache.Invalidate" = true /\
+  atomic_writer "security.SessionCache.Store" = true.
+Proof. exact cache_atomic_sections. Qed.
+Print Assumptions C17_cache_atomic_sections.
+
 (* ... and therefore any number of threads, each any sequence of the translated
    lock-guarded accesses, is race-free in every interleaving. *)
 Theorem C17_cache_threads_drf : forall (prog : list (list lock_fact)) s,
